@@ -9,3 +9,5 @@ import CweModel.C03.Bitvector
 import CweModel.C03.Taint
 import CweModel.C03.Data
 import CweModel.C03.Maps
+import CweModel.C03.Interval
+import CweModel.C03.MemRegion
